@@ -89,6 +89,8 @@ func interestWire(op Op) []byte {
 	}
 	if op.Life > 0 {
 		cfg.Lifetime = utils.IdPtr(time.Duration(op.Life) * time.Millisecond)
+	} else if op.Life < 0 {
+		cfg.Lifetime = utils.IdPtr(time.Duration(0))
 	}
 	if op.Hop > 0 {
 		cfg.HopLimit = utils.IdPtr(uint(op.Hop - 1))
